@@ -153,6 +153,51 @@ def gen_arg(rng, ctr, shorts, kind, opts):
         if rng.random() < 0.15:
             a["hide_pv"] = True
             it.append("(x-hide-pv)")
+    # what spec_vals prints besides the possible values: env, defaults, visible (short) aliases
+    p_spec = opts.get("p_spec", 1.0)
+    if rng.random() < 0.22 * p_spec:
+        a["env"] = "EV" + n + "z"
+        r = rng.random()
+        val = None if r < 0.35 else ("" if r < 0.45 else "ev" + n + "z" + "e" * rng.choice([0, 0, 5, 14]))
+        a["env_val"] = val
+        it.append("(env %s%s)" % (hexs(a["env"]), "" if val is None else " " + hexs(val)))
+        r = rng.random()
+        if r < 0.12:
+            a["hide_env"] = True
+            it.append("(x-hide-env)")
+        elif r < 0.3:
+            a["hide_env_values"] = True
+            it.append("(x-hide-env-values)")
+    if kind in ("opt", "pos") and rng.random() < 0.3 * p_spec:
+        vis_pv = [pv["name"] for pv in a.get("pvs", []) if not pv.get("hide")]
+        multi = a["action"] == "append" or ((a.get("num") or (1, 1))[1] or 99) > 1
+        k = rng.choice([1, 1, 1, 2, 3]) if multi else 1
+        if a.get("pvs"):
+            dv = [rng.choice(vis_pv) for _ in range(k)] if vis_pv else []
+        else:
+            dv = ["dv" + n + "z" + "abc"[j] + rng.choice(["", "", "", " w", "\t", " \"q", "d" * 11, " \\ x"]) for j in range(k)]
+        if dv:
+            a["defaults"] = dv
+            it.append("(default %s)" % " ".join(hexs(v) for v in dv))
+            if rng.random() < 0.2:
+                a["hide_default"] = True
+                it.append("(x-hide-default)")
+    elif kind == "flag" and a["action"] in ("settrue", "setfalse") and rng.random() < 0.06 * p_spec:
+        a["defaults"] = [rng.choice(["true", "false"])]
+        it.append("(default %s)" % hexs(a["defaults"][0]))
+    if "long" in a and rng.random() < 0.25 * p_spec:
+        a["aliases"] = []
+        for j in range(rng.choice([1, 1, 2, 3])):
+            al = ("al" + n + "z" + "abc"[j] + "r" * rng.choice([0, 0, 3, 10]), rng.random() < 0.6)
+            a["aliases"].append(al)
+            it.append("(alias %s%s)" % (hexs(al[0]), " v" if al[1] else ""))
+    if kind in ("flag", "opt") and shorts and rng.random() < 0.15 * p_spec:
+        a["saliases"] = []
+        for j in range(rng.choice([1, 1, 2])):
+            if shorts:
+                al = (shorts.pop(rng.randrange(len(shorts))), rng.random() < 0.6)
+                a["saliases"].append(al)
+                it.append("(salias %d%s)" % (ord(al[0]), " v" if al[1] else ""))
     a["items"] = [x for x in it if x]
     return a
 
@@ -489,6 +534,21 @@ def dec_arg(l):
             a["order"] = int(r[0])
         elif h == "x-valname":
             a["valnames"] += [s_(x) for x in r]
+        elif h == "alias":
+            a.setdefault("aliases", []).append((s_(r[0]), len(r) > 1 and r[1] == "v"))
+        elif h == "salias":
+            a.setdefault("saliases", []).append((chr(int(r[0])), len(r) > 1 and r[1] == "v"))
+        elif h == "default":
+            a["defaults"] = [s_(x) for x in r]
+        elif h == "env":
+            a["env"] = s_(r[0])
+            a["env_val"] = s_(r[1]) if len(r) > 1 else None
+        elif h == "x-hide-env":
+            a["hide_env"] = True
+        elif h == "x-hide-env-values":
+            a["hide_env_values"] = True
+        elif h == "x-hide-default":
+            a["hide_default"] = True
         elif h == "x-pv":
             pv = {"name": s_(r[0])}
             for e in r[1:]:
@@ -580,6 +640,16 @@ def arg_markers_all(a):
         m.append(a["long_help"].split()[0])
     for pv in a["pvs"]:
         m.append(pv["name"])
+    # what spec_vals prints: env name and value, defaults, aliases (only marker-shaped ones are used)
+    if a.get("env"):
+        m.append(a["env"])
+        if a.get("env_val"):
+            m.append(a["env_val"])
+    for al, _vis in a.get("aliases", []):
+        m.append(al)
+    if not a["pvs"]:
+        for d in a.get("defaults", []):
+            m.append(d.split()[0] if d.split() else d)
     return m
 
 
@@ -733,6 +803,10 @@ def oracle(case, impl):
                 return "hidden possible value %s of %s appears" % (pv["name"], a["id"])
             if pv.get("hide") and pv.get("help") and MARKER.match(pv["help"]) and pv["help"].split()[0] in text:
                 return "help of hidden possible value %s of %s appears" % (pv["name"], a["id"])
+        # hidden (non-visible) aliases appear nowhere
+        for al, vis in a.get("aliases", []):
+            if not vis and MARKER.match(al) and al in text:
+                return "hidden alias %s of %s appears" % (al, a["id"])
     # -- subcommands
     for s in level["subs"]:
         if s.get("hide"):
@@ -820,7 +894,8 @@ def describe(cases, name):
     for k in ("short", "long", "usage", "flag-h", "flag-help", "sub-help"):
         d["which=" + k] = sum(1 for c in cases if "(which %s)" % k in c or "(which (%s" % k in c)
     for k in ("(action count)", "(x-heading", "(x-order", "(x-next-line)", "(x-hide-short)", "(x-hide-long)", "(x-pv",
-              "(x-hide-pv)", "hide", "disable_help_flag", "(sub ", "(short_flag", "(x-long-help", "reqeq", "last"):
+              "(x-hide-pv)", "hide", "disable_help_flag", "(sub ", "(short_flag", "(x-long-help", "reqeq", "last",
+              "(env ", "(x-hide-env)", "(x-hide-env-values)", "(default ", "(x-hide-default)", "(alias ", " v)", "(salias "):
         d["has " + k] = sum(1 for c in cases if k in c)
     ws = [int(re.search(r"\(width (\d+)\)", c).group(1)) for c in cases if "(width" in c]
     d["widths distinct"] = len(set(ws))
